@@ -2,6 +2,8 @@
    statics) and adds driver entry points after it. */
 #include "interpose.h"
 #include "radsecproxy.c"
+#include "fticks.h"
+#include "fticks_hashmac.h"
 #include "hcommon.h"
 
 /* ---------- pure-function ops ---------- */
@@ -215,7 +217,133 @@ static int op_ascii(int argc, char **argv, FILE *out) {
     return 1;
 }
 
+/* ---------- logging ops ---------- */
+extern void h_debug_capture_start(void);
+extern char *h_debug_capture_stop(size_t *len);
+extern void h_debug_level_raw(uint8_t l);
+
+/* optional attribute token: "." = absent, "-" = present and empty, else hex */
+static void addopt(struct radmsg *m, uint8_t type, const char *tok) {
+    int l;
+    uint8_t *v;
+    if (!strcmp(tok, "."))
+        return;
+    v = hx(tok, &l);
+    radmsg_add(m, maketlv(type, l, l ? v : NULL), 0);
+    free(v);
+}
+
+static char *optstr(const char *tok) { return strcmp(tok, ".") ? hxstr(tok) : NULL; }
+
+static void put_captured(FILE *out) {
+    size_t len;
+    char *log = h_debug_capture_stop(&len);
+    if (!log || !len)
+        fputs("nolog", out);
+    else {
+        while (len && log[len - 1] == '\n')
+            len--;
+        puthex(out, (uint8_t *)log, len);
+    }
+    free(log);
+}
+
+/* replylog <mode> <key|.> <fulluser> <code> <rqcode> <user> <station> <cui> <oper> <replymsg>  -> hex of the log line | nolog */
+static int op_replylog(int argc, char **argv, FILE *out) {
+    struct clsrvconf sconf, cconf;
+    struct server srv;
+    struct client cl;
+    struct request rq;
+    struct sockaddr_in sa;
+    struct radmsg *msg, *rqmsg;
+    uint8_t auth[16] = {0};
+    struct options saved = options;
+    if (argc != 10)
+        return 0;
+    memset(&sconf, 0, sizeof(sconf)); memset(&cconf, 0, sizeof(cconf));
+    memset(&srv, 0, sizeof(srv)); memset(&cl, 0, sizeof(cl)); memset(&rq, 0, sizeof(rq)); memset(&sa, 0, sizeof(sa));
+    sconf.name = "srvX"; cconf.name = "cliX";
+    srv.conf = &sconf; cl.conf = &cconf;
+    sa.sin_family = AF_INET; sa.sin_addr.s_addr = htonl(0x7f000001);
+    cl.addr = (struct sockaddr *)&sa;
+    options.log_mac = atoi(argv[0]);
+    options.log_key = (uint8_t *)optstr(argv[1]);
+    options.logfullusername = atoi(argv[2]);
+    msg = radmsg_init(atoi(argv[3]), 7, auth);
+    rqmsg = radmsg_init(atoi(argv[4]), 7, auth);
+    addopt(rqmsg, RAD_Attr_User_Name, argv[5]);
+    addopt(rqmsg, RAD_Attr_Calling_Station_Id, argv[6]);
+    addopt(msg, RAD_Attr_CUI, argv[7]);
+    addopt(rqmsg, RAD_Attr_Operator_Name, argv[8]);
+    addopt(msg, RAD_Attr_Reply_Message, argv[9]);
+    rq.msg = rqmsg; rq.from = &cl;
+    h_debug_level_raw(DBG_DBG);
+    h_debug_capture_start();
+    replylog(msg, &srv, &rq);
+    put_captured(out);
+    h_debug_level_raw(DBG_ERR);
+    radmsg_free(msg); radmsg_free(rqmsg);
+    free(options.log_key);
+    options = saved;
+    return 1;
+}
+
+/* fticks <mode> <key|.> <reporting 1|2> <accept 0|1> <user> <station> <visinst|.>  -> hex of the F-Ticks line */
+static int op_fticks(int argc, char **argv, FILE *out) {
+    struct clsrvconf cconf;
+    struct client cl;
+    struct request rq;
+    struct radmsg *msg, *rqmsg;
+    uint8_t auth[16] = {0};
+    struct options saved = options;
+    if (argc != 7)
+        return 0;
+    memset(&cconf, 0, sizeof(cconf)); memset(&cl, 0, sizeof(cl)); memset(&rq, 0, sizeof(rq));
+    cconf.name = "cliX"; cconf.fticks_viscountry = "XX"; cconf.fticks_visinst = optstr(argv[6]);
+    cl.conf = &cconf;
+    options.fticks_mac = atoi(argv[0]);
+    options.fticks_key = (uint8_t *)optstr(argv[1]);
+    options.fticks_reporting = atoi(argv[2]);
+    options.fticksprefix = "F-TICKS/test/1.0";
+    msg = radmsg_init(atoi(argv[3]) ? RAD_Access_Accept : RAD_Access_Reject, 7, auth);
+    rqmsg = radmsg_init(RAD_Access_Request, 7, auth);
+    addopt(rqmsg, RAD_Attr_User_Name, argv[4]);
+    addopt(rqmsg, RAD_Attr_Calling_Station_Id, argv[5]);
+    rq.msg = rqmsg; rq.from = &cl;
+    h_debug_capture_start();
+    fticks_log(&options, &cl, msg, &rq);
+    put_captured(out);
+    radmsg_free(msg); radmsg_free(rqmsg);
+    free(options.fticks_key); free(cconf.fticks_visinst);
+    options = saved;
+    return 1;
+}
+
+/* hashmac <hex C string> <key|.> <outlen> -> hex of the C string written */
+static int op_hashmac(int argc, char **argv, FILE *out) {
+    char *in, *key;
+    int outlen;
+    uint8_t *o;
+    if (argc != 3)
+        return 0;
+    in = hxstr(argv[0]);
+    key = optstr(argv[1]);
+    outlen = atoi(argv[2]);
+    o = malloc(outlen > 0 ? outlen : 1);
+    memset(o, 0xAA, outlen > 0 ? outlen : 1);
+    fticks_hashmac((uint8_t *)in, (uint8_t *)key, outlen, o);
+    if (outlen < 1)
+        fputs("-", out);
+    else
+        puthex(out, o, strnlen((char *)o, outlen));
+    free(o); free(in); free(key);
+    return 1;
+}
+
 int h_rsp_op(const char *op, int argc, char **argv, FILE *out) {
+    if (!strcmp(op, "replylog")) return op_replylog(argc, argv, out);
+    if (!strcmp(op, "fticks")) return op_fticks(argc, argv, out);
+    if (!strcmp(op, "hashmac")) return op_hashmac(argc, argv, out);
     if (!strcmp(op, "decttl")) return op_decttl(argc, argv, out);
     if (!strcmp(op, "radlen")) return op_radlen(argc, argv, out);
     if (!strcmp(op, "findconf")) return op_findconf(argc, argv, out);
